@@ -17,6 +17,41 @@ def _known_findings_path() -> str:
     return os.path.join(VERIF_DIR, "known_findings.json")
 
 
+def canon_construct(text: str) -> str:
+    """A construct text with its bare identifiers (variables: not called, not an attribute name) replaced by $1, $2, .. in order of
+    first appearance: the key of a known finding must not change when a local variable is renamed."""
+    import re as _re
+    names: Dict[str, str] = {}
+
+    def repl(m):
+        word = m.group(0)
+        start, end = m.start(), m.end()
+        before = text[start - 1] if start > 0 else ""
+        after = text[end:end + 1]
+        if before == "." or after == "(" or word[0].isdigit():
+            return word
+        if word not in names:
+            names[word] = "$%d" % (len(names) + 1)
+        return names[word]
+    return _re.sub(r"[A-Za-z_][A-Za-z_0-9]*", repl, text or "")
+
+
+def same_construct(a: str, b: str) -> bool:
+    """Equality of two construct texts up to the names of variables; a text that was cut with '...' (source.short) is compared on
+    the tokens that both sides still have (a longer variable name moves the cut) and on what follows the cut."""
+    import re as _re
+    if "..." not in (a or "") and "..." not in (b or ""):
+        return canon_construct(a) == canon_construct(b)
+    ha, _, ta = (a or "").partition("...")
+    hb, _, tb = (b or "").partition("...")
+    if ta.strip() != tb.strip():
+        return False
+    tok = lambda t: _re.findall(r"\$\d+|[A-Za-z_][A-Za-z_0-9]*|\S", canon_construct(t))
+    xa, xb = tok(ha), tok(hb)
+    n = min(len(xa), len(xb)) - 1          # the last token of the shorter side may itself be cut
+    return n >= 3 and xa[:n] == xb[:n]
+
+
 def load_known_findings() -> Dict[str, Any]:
     p = _known_findings_path()
     if not os.path.exists(p):
@@ -110,7 +145,7 @@ class Ctx:
             for k in known:
                 if (k.get("rule") == o["rule"] and k.get("file") == o["file"]
                         and k.get("function") == o["function"]
-                        and k.get("construct") == o["construct"]):
+                        and same_construct(k.get("construct"), o["construct"])):
                     hit = k
                     break
             if hit is not None:
